@@ -101,6 +101,16 @@ func runFileSink(rc *RunCtx, prop string, crash bool, faults bool) {
 	sink := &el.FileSink{Path: logDir}
 	// (names whose extension text also occurs earlier in the name: only the trailing one is the extension)
 	sink.FileName = []string{"ev.log", "ev", "audit.txt", "ev.login.log", "ev.log.log", "v1.0.1.0"}[tp.Choose(6, "fname")]
+	// the configured file name may carry a directory component (Path: /var/log, FileName: app/audit.log): the
+	// sink's files, rotated ones included, live in that directory (which exists) and nowhere else
+	splitName := prop == "C15" && tp.Choose(4, "file-name-with-directory") == 0
+	if splitName {
+		sink.Path = logDir
+		sink.FileName = filepath.Join("app", sink.FileName)
+		logDir = filepath.Join(logDir, "app") // where the sink's files are, for everything below
+		os.MkdirAll(logDir, 0o700)
+		simrt.Probe("fs.file-name-with-directory")
+	}
 	sink.MaxBytes = []int{0, 0, 1, 40, 120, 300}[tp.Choose(6, "maxbytes")]
 	sink.MaxFiles = tp.Choose(4, "maxfiles")
 	switch tp.Choose(6, "maxdur") {
@@ -124,11 +134,11 @@ func runFileSink(rc *RunCtx, prop string, crash bool, faults bool) {
 	desc := &fsCfgDesc{FileName: sink.FileName, MaxBytes: sink.MaxBytes, MaxFiles: sink.MaxFiles, MaxDurMs: int64(sink.MaxDuration / time.Millisecond),
 		TSOnRot: sink.TimestampOnlyOnRotate, Mode: fmt.Sprintf("%o", sink.Mode), Format: format}
 	rc.Desc = desc
-	ext := filepath.Ext(sink.FileName)
+	ext := filepath.Ext(filepath.Base(sink.FileName))
 	if ext == "" {
 		ext = ".log"
 	}
-	base := strings.TrimSuffix(sink.FileName, ext)
+	base := strings.TrimSuffix(filepath.Base(sink.FileName), ext)
 	rotEnabled := sink.MaxBytes > 0 || sink.MaxDuration != 0
 	wantMode := sink.Mode
 	if wantMode == 0 {
@@ -141,7 +151,7 @@ func runFileSink(rc *RunCtx, prop string, crash bool, faults bool) {
 	decoys := []string{"other.log", base + ext + ".bak", base + "X-1" + ext + ".old", "zz-" + base + "-5" + ext, base + "-audit" + ext,
 		// look-alike neighbours WITHOUT the "-" that separates the sink's base name from its timestamps
 		base + "2" + ext, base + "_archive" + ext, base + "or" + ext}
-	if cut, _, _ := strings.Cut(sink.FileName, ext); cut != base && cut != "" {
+	if cut, _, _ := strings.Cut(filepath.Base(sink.FileName), ext); cut != base && cut != "" {
 		decoys = append(decoys, cut+"-0000000000000000001"+ext) // a rotated file of the sibling sink <cut><ext>
 	}
 	preDecoys := tp.Choose(2, "decoys") == 0
@@ -180,8 +190,8 @@ func runFileSink(rc *RunCtx, prop string, crash bool, faults bool) {
 	if sink.Mode != 0 && (sink.TimestampOnlyOnRotate || !rotEnabled) && tp.Choose(4, "preexisting") == 0 {
 		os.MkdirAll(logDir, 0o700)
 		preContent = []byte("from an earlier run\n")
-		os.WriteFile(filepath.Join(logDir, sink.FileName), preContent, 0o666)
-		os.Chmod(filepath.Join(logDir, sink.FileName), 0o666)
+		os.WriteFile(filepath.Join(logDir, filepath.Base(sink.FileName)), preContent, 0o666)
+		os.Chmod(filepath.Join(logDir, filepath.Base(sink.FileName)), 0o666)
 		simrt.Probe("fs.preexisting-active-file")
 	}
 
@@ -360,7 +370,7 @@ func runFileSink(rc *RunCtx, prop string, crash bool, faults bool) {
 			case c < 15:
 				prog = append(prog, step{kind: "reopen"})
 				pd = append(pd, "reopen")
-			case c < 17 && seqMode && tp.Choose(3, "rmdir") == 0:
+			case c < 17 && seqMode && !splitName && tp.Choose(3, "rmdir") == 0:
 				if !sink.TimestampOnlyOnRotate && tp.Choose(2, "rmdir-silently") == 0 {
 					// nobody tells the sink: it keeps writing to the file it holds; the next file it creates
 					// (a rotation) needs the directory again. (Not with TimestampOnlyOnRotate: renaming the
@@ -780,7 +790,7 @@ func checkNameOrder(rc *RunCtx, sim *simrt.Sim, sink *el.FileSink, logDir, base,
 			continue
 		}
 		switch {
-		case name == sink.FileName:
+		case name == filepath.Base(sink.FileName):
 			files = append(files, nf{id, 1<<62 - 1}) // the active file is the newest
 		case strings.HasPrefix(name, base+"-") && strings.HasSuffix(name, ext):
 			ts, err := strconv.ParseInt(strings.TrimSuffix(strings.TrimPrefix(name, base+"-"), ext), 10, 64)
@@ -949,15 +959,15 @@ func (m *fsModel) checkDir(when string, justRotated bool) {
 	for _, en := range ents {
 		name := en.Name()
 		ok, _ := filepath.Match(m.pattern(), name)
-		if ok || name == activeName || name == m.sink.FileName || isDecoy[name] || strings.HasPrefix(name, "rotated-away-") {
+		if ok || name == activeName || name == filepath.Base(m.sink.FileName) || isDecoy[name] || strings.HasPrefix(name, "rotated-away-") {
 			continue
 		}
 		m.fail("rotated-name", "unexpected-file", "%s: the directory holds %q, which is neither the active file nor named %s-<timestamp>%s", when, name, m.base, m.ext)
 	}
 	// the active file's name
 	if m.sink.TimestampOnlyOnRotate || !m.rotEnabled {
-		if activeName != m.sink.FileName {
-			m.fail("active-name", "", "%s: the active file is %q, expected the plain configured name %q", when, activeName, m.sink.FileName)
+		if activeName != filepath.Base(m.sink.FileName) {
+			m.fail("active-name", "", "%s: the active file is %q, expected the plain configured name %q", when, activeName, filepath.Base(m.sink.FileName))
 		}
 	} else {
 		if ok, _ := filepath.Match(m.pattern(), activeName); !ok {
@@ -970,7 +980,7 @@ func (m *fsModel) checkDir(when string, justRotated bool) {
 	// modes
 	for _, en := range ents {
 		name := en.Name()
-		isSink := name == m.sink.FileName
+		isSink := name == filepath.Base(m.sink.FileName)
 		if ok, _ := filepath.Match(m.pattern(), name); ok {
 			isSink = true
 		}
@@ -1142,7 +1152,7 @@ func runFileSinkRotConc(rc *RunCtx) {
 			continue
 		}
 		present[fid] = true
-		if name == sink.FileName {
+		if name == filepath.Base(sink.FileName) {
 			continue
 		}
 		ts, err := strconv.ParseInt(strings.TrimSuffix(strings.TrimPrefix(name, "ev-"), ".log"), 10, 64)
